@@ -745,7 +745,11 @@ Definition on_message (e : env) (from : nid) (m : msg) (n : node) : S :=
     else s
   | NextIdx t next reset success =>
     if (role (nd s) =? LEADER) && (t =? term (nd s)) then
-      let s := if reset then upd (fun n => n <| next_idx := aset from next (next_idx n) |>) s else s in
+      let s := if reset then
+                 upd (fun n => n <| next_idx := aset from (match aget from (next_idx n) with
+                                                          | Some cur => N.min next cur | None => next end)
+                                                         (next_idx n) |>) s
+               else s in
       let s := if success then
                  match aget from (match_idx (nd s)) with
                  | None => raise EXC_KEY s
